@@ -24,7 +24,8 @@ def FLOORS(tier):
     q = tier == "quick"
     f = {"constraint-histories": 350 if q else 10000, "reductions": 120 if q else 4000, "partial-substitution": 80,
          "arbitrary-float-weight": 80, "logical-method": 100, "class:PCBO": 100, "class:PCSO": 100,
-         "symbol-really-present": 300 if q else 9000, "independence-probes": 300, "reduction:nothing-to-reduce": 15}
+         "symbol-really-present": 300 if q else 9000, "independence-probes": 300, "reduction:nothing-to-reduce": 15,
+         "subs-form:dict": 60, "subs-form:pairs": 60, "subs-form:positional": 40}
     for s in C.SHAPES:
         f["shape:" + s] = 8 if q else 300
     for R in C.RELS:
@@ -154,7 +155,20 @@ def case(ctx, rng, idx):
             return
         ok, Hn = ctx.call("subs", mid.subs, rest, _w=w)
     else:
-        ok, Hn = ctx.call("subs", Hs.subs, subsmap, _w=w)
+        # the argument forms sympy's subs accepts: a dict, a list of (old, new) pairs, or (old, new) for a single symbol
+        form = rng.choice(["dict", "pairs", "positional"])
+        if form == "positional" and len(subsmap) != 1:
+            form = "pairs"
+        ctx.cat("subs-form:" + form)
+        w["subs_form"] = form
+        if form == "dict":
+            ok, Hn = ctx.call("subs", Hs.subs, subsmap, _w=w)
+        elif form == "pairs":
+            pairs_ = list(subsmap.items())
+            ok, Hn = ctx.call("subs", Hs.subs, pairs_ if rng.random() < 0.5 else tuple(pairs_), _w=w)
+        else:
+            (k_, v_), = subsmap.items()
+            ok, Hn = ctx.call("subs", Hs.subs, k_, v_, _w=w)
     if not ok:
         return
     if dict(Hs) != snap or Hs.constraints != snap_cons:
@@ -240,7 +254,11 @@ def reduction_case(ctx, rng):
     nsym = has_symbol(Ds)
     if nsym:
         ctx.count("symbol-really-present")
-    ok, Dn = ctx.call("subs", Ds.subs, {lam: c}, _w=w)
+    form = rng.choice(["dict", "pairs", "positional"])
+    ctx.cat("subs-form:" + form)
+    w["subs_form"] = form
+    ok, Dn = ctx.call("subs", Ds.subs, {lam: c}, _w=w) if form == "dict" else (
+        ctx.call("subs", Ds.subs, [(lam, c)], _w=w) if form == "pairs" else ctx.call("subs", Ds.subs, lam, c, _w=w))
     if not ok:
         return
     if dict(Ds) != snap:
